@@ -3,9 +3,10 @@
 #include "ec_glue.h"
 /* ghost state */
 int g_l, g_len, g_k, g_rows, g_vec_i;
-unsigned char *g_t0, **g_c0, *g_dst, *g_hit_tbl, *g_hit_dst;
+unsigned char *g_t0, **g_c0, *g_dst, *g_hit_tbl;
 void *g_data;
 int g_hits, g_base_calls;
+size_t g_toff, g_tsize;
 int g_n;
 unsigned char g_x, *g_a0;
 #include "splice_defaults.h"
@@ -15,7 +16,8 @@ unsigned char g_x, *g_a0;
         void h_ec_encode_data_##isa(void)                                                          \
         {                                                                                          \
                 int len, k, rows;                                                                  \
-                unsigned char *g_tbls, **data, **coding;                                           \
+                unsigned char *g_tbls, **data;                                                     \
+                unsigned char *coding[EG_MAXROWS]; /* nondeterministic block pointers */           \
                 ec_encode_data_##isa(len, k, rows, g_tbls, data, coding);                          \
                 VCANARY();                                                                         \
         }
@@ -23,7 +25,8 @@ unsigned char g_x, *g_a0;
         void h_ec_encode_data_update_##isa(void)                                                   \
         {                                                                                          \
                 int len, k, rows, vec_i;                                                           \
-                unsigned char *g_tbls, *data, **coding;                                            \
+                unsigned char *g_tbls, *data;                                                      \
+                unsigned char *coding[EG_MAXROWS]; /* nondeterministic block pointers */           \
                 ec_encode_data_update_##isa(len, k, rows, vec_i, g_tbls, data, coding);            \
                 VCANARY();                                                                         \
         }
